@@ -612,6 +612,12 @@ class SimKernel:
         handler = self._commands.get(cmd)
         if handler is None:
             raise oserror(errno.EINVAL)
+        if getattr(self, "command_fault", None) is not None:
+            # a call that fails although the command exists: ENOMEM, EPERM on a descriptor
+            # without read permission, EINTR ... (command_fault: callable(cmd) -> errno or 0)
+            err = self.command_fault(cmd)
+            if err:
+                raise OSError(err, "injected failure of bpf()")
         if cmd in getattr(self, "refused_commands", ()):
             # an older kernel that does not know the command (for this map type) yet:
             # EINVAL, or ENOTSUPP (524) as hash maps answered lookup-and-delete before 5.14
